@@ -297,6 +297,7 @@ func (lam *Lambda) Compile(s *Scope, extraVars ...string) {
 				CurrentPackage.mu.Lock()
 				if vv = CurrentPackage.vars[string(tf)]; vv == nil {
 					vv = newUnboundVar(string(tf))
+					vv.Pkg = CurrentPackage
 					CurrentPackage.vars[string(tf)] = vv
 				}
 				CurrentPackage.mu.Unlock()
